@@ -486,15 +486,18 @@ pub fn boundary(idx: usize, seed: u64, w: &mut dyn Write, thorough: bool) -> Opt
                 let payout = if i % 3 == 0 { PAYOUTS[0] } else if i % 3 == 1 { PAYOUTS[1] } else { "carol" };
                 g.step(&Op::R { sender: DEPLOYER.into(), msg: RMsg::Reg { nft: va(c), payout: va(payout), bps } });
             }
-            // alice owns token t000 of every collection (first user, one per collection)
+            // alice owns two tokens of every collection (first user)
             let nft_owner = "alice";
-            let tid = g.h.sim.minted_ids(&colls[0])[0].clone();
+            let tid = g.h.sim.nft_owners(&colls[0]).into_iter().find(|(_, o)| o == nft_owner).map(|(t, _)| t).unwrap();
             let mut nfts = GenericBalance { native: vec![], cw20: vec![], nfts: vec![] };
             for c in colls.iter().take(17) {
                 nfts.nfts.push(Nft { contract_address: Addr::unchecked(c.as_str()), token_id: tid.clone() });
             }
             // an unregistered collection mixed in
             nfts.nfts.push(Nft { contract_address: Addr::unchecked(colls[17].as_str()), token_id: tid.clone() });
+            // and a second NFT of the first collection, not adjacent to the first one: a collection counts once
+            let tid2 = g.h.sim.nft_owners(&colls[0]).into_iter().filter(|(t, o)| o == nft_owner && *t != tid).map(|(t, _)| t).next().expect("second token");
+            nfts.nfts.push(Nft { contract_address: Addr::unchecked(colls[0].as_str()), token_id: tid2 });
             let t = g.h.sim.cw20_addrs()[0].clone();
             let fung = GenericBalance {
                 native: natives(&[(10_000, JUNO_DENOM), (33_333, USDC_DENOM), (1, "uatom")]),
@@ -857,6 +860,43 @@ pub fn boundary(idx: usize, seed: u64, w: &mut dyn Write, thorough: bool) -> Opt
                     g.step(&x("erinn", vec![], MMsg::FC));
                 }
             }
+            g.battery_drain();
+            Some(g.stats)
+        }
+        21 | 22 | 23 | 24 => {
+            // a full side: 25 NFTs of 25 distinct registered collections at 210 bps (5250: refused) / 200 bps
+            // (5000: allowed), seller side (21, 22) and buyer side (23, 24); every collection counts
+            let bps = if idx % 2 == 1 { 210u64 } else { 200 };
+            let buyer_side = idx >= 23;
+            let mut g = Gen::start(royalty_world(26), &format!("boundary:{} full-side 25 x {} bps side={}", idx, bps, if buyer_side { "buyer" } else { "seller" }), seed, w, thorough);
+            let colls = g.h.sim.cw721_addrs().to_vec();
+            for (i, c) in colls.iter().take(25).enumerate() {
+                g.step(&Op::R { sender: DEPLOYER.into(), msg: RMsg::Reg { nft: va(c), payout: va(PAYOUTS[i % 2]), bps } });
+            }
+            let many = GenericBalance {
+                native: vec![],
+                cw20: vec![],
+                nfts: colls
+                    .iter()
+                    .take(25)
+                    .map(|c| {
+                        let tid = g.h.sim.nft_owners(c).into_iter().find(|(_, o)| o == "alice").map(|(t, _)| t).unwrap();
+                        Nft { contract_address: Addr::unchecked(c.as_str()), token_id: tid }
+                    })
+                    .collect(),
+            };
+            let fung = GenericBalance { native: natives(&[(10_000, JUNO_DENOM), (777, "uatom")]), cw20: vec![], nfts: vec![] };
+            let (lister, goods, ask, payer, pay) = if !buyer_side { ("alice", &many, &fung, "bobby", &fung) } else { ("bobby", &fung, &many, "alice", &many) };
+            for op in g.deposit_ops(lister, goods, 1, Some(Create { ask: gbal_to_raw(ask), whitelist: None })) {
+                g.step(&op);
+            }
+            g.step(&x(lister, vec![], MMsg::FI { id: 1, seconds: 600 }));
+            for op in g.deposit_ops(payer, pay, 1, None) {
+                g.step(&op);
+            }
+            g.step(&x(payer, vec![], MMsg::BL { listing_id: 1, bucket_id: 1 }));
+            // the registry answers for all 25 at once, and for 26 names with an unregistered one
+            g.battery_queries();
             g.battery_drain();
             Some(g.stats)
         }
